@@ -124,7 +124,7 @@ def state(d):
     return ({k: set(v) for k, v in d.db.items()}, {k: set(v) for k, v in d.rdb.items()})
 
 
-PKGS = ["p", "q", "r", "pk"]
+PKGS = ["p", "q", "r", "pk", "Pk", "p:x"]       # also two names equal up to case, and one with an architecture-like qualifier
 TAGS = ["t", "u", "f::x", "f::y"]
 
 
@@ -203,19 +203,19 @@ def run_history(real, rng, n_ops, t):
                                 model={"db": _j(mm.db), "rdb": _j(mm.rdb)})
             if mm.inverse_ok():
                 rel = {(p, tg) for p, ts in mm.db.items() for tg in ts}
-                for p in PKGS:
+                for p in sorted(set(PKGS) | set(mm.db)):       # in a reversed collection the "packages" are tags
                     if p in mm.db and dd.tags_of_package(p) != {tg for (pp, tg) in rel if pp == p}:
                         return t.failed("tags_of_package disagrees with the relation", operations=ops, package=p)
-                for tg in TAGS + ["f"]:
+                for tg in sorted(set(TAGS + ["f"]) | set(mm.rdb)):
                     exp = {pp for (pp, t2) in rel if t2 == tg}
                     if dd.packages_of_tag(tg) != exp or dd.card(tg) != len(exp) or dd.has_tag(tg) != (tg in mm.rdb):
                         return t.failed("packages_of_tag / card / has_tag disagree with the relation", operations=ops, tag=tg)
                 if dd.package_count() != len(mm.db) or dd.tag_count() != len(mm.rdb):
                     return t.failed("package_count / tag_count disagree", operations=ops)
                 # the remaining query methods, and a pickle round trip, against the same relation
-                pk = [p for p in PKGS if p in mm.db]
+                pk = sorted(mm.db)
                 tg = [x for x in mm.rdb]
-                if any(dd.has_package(p) != (p in mm.db) for p in PKGS + TAGS) or \
+                if any(dd.has_package(p) != (p in mm.db) for p in PKGS + TAGS + [x.upper() for x in PKGS]) or \
                         set(dd.iter_packages()) != set(mm.db) or set(dd.iter_tags()) != set(mm.rdb) or \
                         {(p, x) for p, ts in dd.iter_packages_tags() for x in ts} != rel or \
                         {(p, x) for x, ps in dd.iter_tags_packages() for p in ps} != rel:
@@ -354,7 +354,7 @@ def run(ctx):
     rng = random.Random(ctx.seed)
     rounds = 3000 if ctx.tier == "quick" else 40000
     t = Tally(ctx, "B-20 histories of read / insert / derivations on all live collections vs a sharing-aware reference model",
-              "seeded histories of 2-7 operations over packages {p,q,r,pk} (distinct names, one multi-letter) and tags "
+              "seeded histories of 2-7 operations over packages {p,q,r,pk,Pk,p:x} (distinct names; multi-letter, equal up to case, with a colon) and tags "
               "{t,u,f::x,f::y}; after every step every live collection (derived ones included) is compared with the model, and "
               "the query methods with the reference relation whenever the model is consistent; non-trivial = distinct histories of >= 2 operations",
               "%d histories, <= 7 operations" % rounds)
